@@ -151,6 +151,13 @@ func runC14Name(nameIdx int) (string, []explore.Violation) {
 			if _, err := w.P[0].DB.Create(bg, name, typ, &orbitdb.CreateDBOptions{AccessController: ac2, Replicate: boolp(false)}); err == nil {
 				bad("create-over-existing-database-succeeded", "")
 			}
+			// ... also when the call names another directory for the new store's files: what exists is decided
+			// by the instance's own records
+			otherDir := "another-directory"
+			ac2b, _ := w.params(list, 0)
+			if _, err := w.P[0].DB.Create(bg, name, typ, &orbitdb.CreateDBOptions{AccessController: ac2b, Replicate: boolp(false), Directory: &otherDir}); err == nil {
+				bad("create-over-existing-database-succeeded:directory-option", "")
+			}
 			ac3, _ := w.params(list, 0)
 			s3, err := w.P[0].DB.Create(bg, name, typ, &orbitdb.CreateDBOptions{AccessController: ac3, Replicate: boolp(false), Overwrite: boolp(true)})
 			if err != nil {
@@ -259,7 +266,7 @@ func runC14Uniqueness() (string, []explore.Violation) {
 func init() {
 	explore.Register(&explore.CheckDef{
 		ID: "C14", Level: "exploration",
-		Rule:   "full cross product: 31 names (ascii, case, spaces, nested, empty, dot and parent-directory segments, unicode, control characters, names that are or contain the manifest address of another database, 300 characters) x 3 registered types x 6 write lists (none, creator, one id, two ids in both orders, wildcard) on three peers with different identities; restricted to inputs DetermineAddress/Create accept. Oracle: same inputs give the same address on every peer; pairwise different inputs give different addresses (all pairs of the enumerated set) and never the root of an unrelated database; the printed address parses back to the same root and path; Create returns the determined address; Open on another peer yields the recorded type and the given write list; local-only open of an unknown database and Create over an existing one are refused, Create with overwrite succeeds; every ordered pair of 4 databases with different write lists opened through one reused options value keeps its own type and list. Non-trivial = accepted inputs other than the plain name.",
+		Rule:   "full cross product: 31 names (ascii, case, spaces, nested, empty, dot and parent-directory segments, unicode, control characters, names that are or contain the manifest address of another database, 300 characters) x 3 registered types x 6 write lists (none, creator, one id, two ids in both orders, wildcard) on three peers with different identities; restricted to inputs DetermineAddress/Create accept. Oracle: same inputs give the same address on every peer; pairwise different inputs give different addresses (all pairs of the enumerated set) and never the root of an unrelated database; the printed address parses back to the same root and path; Create returns the determined address; Open on another peer yields the recorded type and the given write list; local-only open of an unknown database and Create over an existing one (also with a Directory option naming another directory) are refused, Create with overwrite succeeds; every ordered pair of 4 databases with different write lists opened through one reused options value keeps its own type and list. Non-trivial = accepted inputs other than the plain name.",
 		Units:  func(tier string) []explore.Unit { return explore.ChunkUnits("c14", 16) },
 		Budget: func(tier string) float64 { return 400 },
 		RunUnit: func(c *explore.Ctx) {
